@@ -23,7 +23,6 @@ import (
 	"io"
 	"math"
 	"reflect"
-	"unsafe"
 )
 
 //Encoder type
@@ -31,7 +30,7 @@ type Encoder struct {
 	writer     io.Writer
 	clsDefList []ClassDef
 	nameMap    map[string]string
-	refMap     map[unsafe.Pointer]_refElem
+	refMap     map[_refKey]int
 	refNum     int // number of lists, maps and objects written so far, i.e. the ordinal of the next one
 	err        error // first write error of the current WriteObject call
 }
@@ -54,7 +53,7 @@ func NewEncoder(w io.Writer, np map[string]string) *Encoder {
 func (e *Encoder) Reset(w io.Writer) {
 	e.writer = w
 	e.clsDefList = make([]ClassDef, 0, 11)
-	e.refMap = make(map[unsafe.Pointer]_refElem, 11)
+	e.refMap = make(map[_refKey]int, 11)
 	e.refNum = 0
 }
 
